@@ -46,19 +46,21 @@ type TLCResult struct {
 
 // TLCError is one error block of the TLC output.
 type TLCError struct {
-	Kind  string // invariant | deadlock | property | eval | postcondition | other
-	Name  string // invariant/property name when known
-	Head  string // the "Error:" line
-	State string // text of the (last) state printed with the error, if any
-	Trace []string // all states of the counterexample (text blocks)
+	Kind    string   // invariant | deadlock | property | eval | postcondition | other
+	Name    string   // invariant/property name when known
+	Head    string   // the "Error:" line
+	State   string   // text of the (last) state printed with the error, if any
+	Trace   []string // all states of the counterexample (text blocks)
+	Actions []string // action label of every state of the counterexample, e.g. "RwCheck(p1)"
 }
 
 var (
-	reStates = regexp.MustCompile(`(\d+) states generated, (\d+) distinct states found`)
-	reDepth  = regexp.MustCompile(`The depth of the complete state graph search is (\d+)`)
-	reInv    = regexp.MustCompile(`Invariant (\S+) is violated`)
-	reProp   = regexp.MustCompile(`(?:Temporal properties were violated|Action property (\S+) is violated|property (\S+) (?:is|was) violated)`)
-	reState  = regexp.MustCompile(`^State (\d+): `)
+	reStates    = regexp.MustCompile(`(\d+) states generated, (\d+) distinct states found`)
+	reDepth     = regexp.MustCompile(`The depth of the complete state graph search is (\d+)`)
+	reInv       = regexp.MustCompile(`Invariant (\S+) is violated`)
+	reProp      = regexp.MustCompile(`(?:Temporal properties were violated|Action property (\S+) is violated|property (\S+) (?:is|was) violated)`)
+	reState     = regexp.MustCompile(`^State (\d+): `)
+	reActionLbl = regexp.MustCompile(`^State \d+: <(\w+(?:\([^)]*\))?) line`)
 )
 
 // SpecDir is where the TLA+ modules live.
@@ -199,6 +201,11 @@ func RunTLC(o TLCOpts) (*TLCResult, error) {
 			if reState.MatchString(line) {
 				flushState()
 				inState = true
+				if cur != nil {
+					if m := reActionLbl.FindStringSubmatch(line); m != nil {
+						cur.Actions = append(cur.Actions, m[1])
+					}
+				}
 				continue
 			}
 			if inState {
